@@ -74,7 +74,7 @@ var properties = map[string]PropSpec{
 			c.ruleConv()
 			c.ttCanPushNester()
 			c.ttCondExprHandler()
-			c.rep.floor("R-CONV", 30)
+			c.rep.floor("R-CONV", 26)
 		},
 	},
 	"C16": {
